@@ -40,6 +40,7 @@ from edb.edgeql import qltypes
 
 from edb.schema import objtypes as s_objtypes
 from edb.schema import pointers as s_pointers
+from edb.schema import utils as s_utils
 
 from edb.ir import ast as irast
 from edb.ir import typeutils as irtyputils
@@ -422,8 +423,12 @@ def __infer_oper_call(
                 for arg in ir.args.values()
             ]
 
+            # N.B: an operand can be of a union or intersection type
+            # itself (e.g. the result of another UNION), in which case
+            # we need to look at what it is made of.
             lineages = [
-                (t,) + tuple(t.descendants(ctx.env.schema))
+                tuple(s_utils.expand_type_expr_descendants(
+                    t, ctx.env.schema))
                 for t in types
             ]
             flattened = tuple(itertools.chain.from_iterable(lineages))
